@@ -15,6 +15,10 @@ def run(ctx):
         facts=lambda c, reason: {"reason": reason[0] if isinstance(reason, list) else reason},
         what=lambda c, reason: "%s `sgv %s`: %s" % (c["id"], " ".join(c["cmd"]), reason),
         mc_kw={"workers": 8, "timeout": 3000, "heap": "8g"})
+    # stage 2: the interactive session around the same writer (Interactive.tla); outside the statement of C18, so a
+    # rejected session is an EXTENSION-FINDING, never a violation
+    from checks import interactivestage
+    interactivestage.run(ctx)
     recs = vlib.read_ndjson(rec)
     nt = set()
     for x in recs:
